@@ -442,7 +442,7 @@ def _db_scripts(rng, tier):
     for n in (1, 2, 3):
         for tup in itertools.product(alpha, repeat=n):
             out.append([list(o) for o in tup])
-    for _ in range(2000 if tier == "thorough" else 300):
+    for _ in range(2000 if tier == "thorough" else 250):
         n = rng.randint(4, 12)
         out.append([list(rng.choice(alpha + [[1, 3], [2, 3], [3, 3], [6, 0], [6, 0]])) for _ in range(n)])
     for s in out:  # distinct insert values
@@ -468,8 +468,8 @@ def gen_cases(rng, tier):
         es = [x for x in hist if x[1] != "enum3"]
         rng.shuffle(e3)
         rng.shuffle(es)
-        hist = e3[:1100] + es[:500]
-    nrand = 6000 if thorough else 450
+        hist = e3[:700] + es[:300]
+    nrand = 6000 if thorough else 250
     maxlen = 25 if thorough else 9
     for _ in range(nrand):
         hist.append((_rand_uniform(rng, rng.randint(4, maxlen)), "random-uniform"))
@@ -478,7 +478,7 @@ def gen_cases(rng, tier):
         hist.append((_rand_with(rng, rng.randint(4, maxlen), rng.random() < 0.5), "random-with"))
     cases = [{"in": [0, h], "kind": k} for h, k in hist]
     # the oracle's reference model against the Coq reference model (no database involved)
-    step = 1 if thorough else 3
+    step = 1 if thorough else 4
     cases += [{"in": [2, h], "kind": "spec"} for h, _ in hist[::step]]
     cases += [{"in": [1, s], "kind": "db"} for s in _db_scripts(rng, tier)]
     return cases
@@ -767,6 +767,27 @@ def match_finding(c, what):
     return REGIONS.get(reg)
 
 
-LEVEL_TEXT = "filled in below"
-LEVEL_NOTE = ""
-TECHNIQUE = ""
+LEVEL_TEXT = (
+    "Machine-checked proof (Coq) over a faithful executable model of Connection / RootTransaction / "
+    "NestedTransaction / TransactionalContext running against a reference database with a savepoint "
+    "stack. For EVERY history (any length, any nesting depth, misuse included): the _cancel recursion "
+    "terminates, an operation on an inactive transaction object sends nothing to the database and "
+    "commit() on it raises. For every history outside three precisely delimited defective regions "
+    "(boolean guard computed on the reference model): visible and current data, in_transaction / "
+    "in_nested_transaction, is_active of every handle and the raise/no-raise outcome of every "
+    "operation equal the reference nested-transaction model after every step, and every command sent "
+    "to the database is accepted. Each excluded region has a refutation theorem with a concrete "
+    "witness that is replayed on SQLite on every run (KNOWN-FINDING)."
+)
+LEVEL_NOTE = (
+    "Trusted: Coq kernel; the hand transcription (source pin of 34 anchors + the _execute_context "
+    "prologue; compared with the real classes after every operation of ~3000 quick / ~31000 thorough "
+    "histories on real SQLite); the reference database (validated against sqlite3 on every run; "
+    "trusted for PostgreSQL/MariaDB, which cannot run here). No axioms."
+)
+TECHNIQUE = (
+    "Coq: forward simulation between the code model and a reference nested-transaction model "
+    "(invariant over object graph, with-block stack and database savepoint stack), compositional "
+    "well-formedness/fuel invariant; refutations by vm_compute; source pin; differential testing "
+    "of model, reference db and oracle on SQLite"
+)
